@@ -134,7 +134,7 @@ def gen(tier, seed):
     lens = [1, 2, 38, 39, 40, 77, 78, 79, 117, 156, 479, 1014, 1023, 1024] + [r.randrange(1, 1025) for _ in range(10 if tier == "quick" else 200)]
     for L in lens:
         cases.append({"start": 0, "length": L, "fault": none})
-    for _ in range(30 if tier == "quick" else 600):
+    for _ in range(40 if tier == "quick" else 3000):
         st = r.randrange(1024)
         cases.append({"start": st, "length": r.randrange(1, 1025 - st), "fault": none})
     shapes = [(0, 1024), (256, 479), (5, 78)] + ([(100, 117), (700, 156), (0, 40)] if tier == "thorough" else [])
@@ -147,7 +147,7 @@ def gen(tier, seed):
         cases.append({"start": st, "length": L, "fault": {"kind": "drop-req", "attempts": [1, 2]}})
         cases.append({"start": st, "length": L, "fault": {"kind": "drop-last", "attempts": [1, 2]}})
         cases.append({"start": st, "length": L, "fault": {"kind": "blackout"}})
-    for _ in range(20 if tier == "quick" else 400):
+    for _ in range(30 if tier == "quick" else 2000):
         st = r.choice([0, 256, r.randrange(900)])
         cases.append({"start": st, "length": r.randrange(40, 1025 - st), "fault": {"kind": "random", "p_drop": r.choice([0.02, 0.1, 0.3]), "p_dup": r.choice([0, 0.1]), "max_delay": r.choice([0.03, 0.3])}})
     for i, c in enumerate(cases):
